@@ -19,14 +19,14 @@ CLAIMS = {
  "C10": ("no silently overflowing machine arithmetic in the script-reachable numeric surface; checked fast paths with big-number promotion; canonical bignum / rational construction; float->integer casts range-checked; binary numeric arms read both operands", "operation census with guard-idiom discharge + simulated match decision trees over MIR"),
  "C11": ("eq/hash class agreement per kind; nested equality arms = top-level arms; cross-side membership; visited set keyed on both operands and never turning a revisit into inequality; order-independent hashing of hash collections; hash-union bias in every ownership arm; identity fields fed into Hash are compared by equality; no equality shortcut decides a cross-kind comparable pair unequal by kind alone; the same-list shortcut compares the next pointers; cross-kind comparable kinds hash under one tag", "sibling arm classification + field-sensitive value flow over MIR; decision-tree simulation of pair matches"),
  "C12": ("reader recursion (call-graph cycles) reachable from the reader entry points; budget of byte-offset slicing sites in the reader; interned ids are tied to their table entry by the id; reader counters are at least 32 bits wide", "SCC over the resolved call graph + confirmed-instance census; value-flow from fetch_add + integer-width census"),
- "C13": ("syntax-rules pattern matching and renaming, structural clauses only (hygiene proper — which binding an identifier of an expansion resolves to — is NOT decided): every non-ellipsis pattern consumes exactly one form in binder and matcher; the recursive pattern walkers descend into the same variants; every template binder is recorded, renamed and flagged (sibling agreement over the renamer's binder sites); a macro case is built only after template verification, renaming and pattern mangling; an expansion starts from cleared binding tables; the expander's scope layers are balanced on every successful exit; template walkers read every child of every node; a pattern without a tail matches only uses it consumes entirely; matcher and binder count an ellipsis alike; un-introducing a binder never removes an enclosing one", "every-path / pairing / sibling-agreement / must-pass-through checks over MIR, type-directed traversal completeness"),
+ "C13": ("syntax-rules pattern matching and renaming, structural clauses only (hygiene proper — which binding an identifier of an expansion resolves to — is NOT decided): every non-ellipsis pattern consumes exactly one form in binder and matcher; the recursive pattern walkers descend into the same variants; every template binder is recorded, renamed and flagged (sibling agreement over the renamer's binder sites); a macro case is built only after template verification, renaming and pattern mangling; an expansion starts from cleared binding tables; the expander's scope layers are balanced on every successful exit; template walkers read every child of every node; a pattern without a tail matches only uses it consumes entirely; matcher and binder count an ellipsis alike; un-introducing a binder never removes an enclosing one; a loop that module-qualifies macros runs over the whole macro table", "every-path / pairing / sibling-agreement / must-pass-through checks over MIR, type-directed traversal completeness"),
  "C14": ("a required module is compiled only after the compiled-module / file-metadata tables were consulted; compile_module registers the module; failed compilation restores the module table; unused-import pruning walks every module macro's templates; module identities are canonical paths; only provided macros leave a module (initialiser from the provide forms; requester-named insertions control-dependent on a membership test). NOT decided: which value names a module graph exposes", "dominator + every-path checks over MIR; field-provenance value flow + path-based guard with correlated-accessor pruning"),
  "C15": ("publish/retract pairing of the safepoint context; who may dereference a foreign thread; stop/resume reach every controller; safepoints enabled for every new thread; every park re-checks in a loop; a walk over the thread registry is left only when the registry is exhausted", "pairing + who-may-deref + on-a-cycle checks over MIR"),
- "C16": ("blocking primitives only inside safepoints; native loop back-edges poll; waits have a liveness exit; the world-stop mutex is only waited for inside a safepoint; parked threads are published; the thread registry drops only dead entries", "who-may-call + derived lock set + reachability over MIR"),
+ "C16": ("blocking primitives only inside safepoints; native loop back-edges poll; waits have a liveness exit; the world-stop mutex is only waited for inside a safepoint; parked threads are published; the thread registry drops only dead entries; every path that stops the world holds the heap lock (in the function, by type, or in every caller); no merge-queue map guard is alive across a payload destructor", "who-may-call + derived lock set + reachability over MIR; interprocedural lock-held-at-call (guard liveness from drop terminators, obligation passed to callers)"),
  "C17": ("every dispatch cycle polls the interrupt flag and propagates it; native back-edges poll; waits break on Interrupted; only the host / thread-resume clear an interrupt, the stop protocol compare-exchanges; interrupt publishes the state before the pause flag", "every-cycle-through + who-may-call + dominators over MIR"),
- "C18": ("every ownership cycle through the value type has an iterative Drop reached on both outcomes of the shared-buffer borrow; no unguarded call-graph cycle in eq/hash/print; every mutable-cell equality arm consults the visited set; collector/printer key agreement; every equality arm one side of which is a mutable cell consults the visited set", "type-ownership graph + SCC + every-path checks over MIR"),
- "C19": ("root work-list empty at exit of mark; mark bits reset before each full mark; counts recomputed; host root freed on token drop; deferred drops merged; redefined globals hand over their previous slot; compaction forced by the growth counter; the host-root entry removed is the one the token names", "must-pass-through + pairing + decision-provenance over MIR + compile_fail witness"),
- "C20": ("no unguarded narrowing/sign-changing cast in conversions; lent-reference who-may-call, unconditional release and RAII pairing; every registered-function wrapper reads each argument position; what a type converts into it converts back from; tuples only from lists of their length", "cast census with guard discharge + who-may-call over MIR + compile_fail witnesses; returned-variant analysis of conversion pairs + constant-index coverage"),
+ "C18": ("every ownership cycle through the value type has an iterative Drop reached on both outcomes of the shared-buffer borrow; no unguarded call-graph cycle in eq/hash/print; every mutable-cell equality arm consults the visited set; collector/printer key agreement; every equality arm one side of which is a mutable cell consults the visited set; the breadth-first visitors (collector markers, recycler, drop handler, equality) have no call cycle among their methods", "type-ownership graph + SCC + every-path checks over MIR"),
+ "C19": ("root work-list empty at exit of mark; mark bits reset before each full mark; counts recomputed; host root freed on token drop; deferred drops merged; redefined globals hand over their previous slot; compaction forced by the growth counter; the host-root entry removed is the one the token names; a queue of deferred decrements is never displaced by an insert", "must-pass-through + pairing + decision-provenance over MIR + compile_fail witness"),
+ "C20": ("no unguarded narrowing/sign-changing cast in conversions; lent-reference who-may-call, unconditional release and RAII pairing; every registered-function wrapper reads each argument position; what a type converts into it converts back from; tuples only from lists of their length; a lent reference's release token is never cloned; the end of a lending call releases the owners of derived references as well", "cast census with guard discharge + who-may-call over MIR + compile_fail witnesses; returned-variant analysis of conversion pairs + constant-index coverage"),
 }
 NA = {
 }
